@@ -2,7 +2,8 @@
 PROP = "C17"
 LEVEL = "other"
 EXPLANATION = 'bounded stand-in: run histories on one application vs fresh ones, style construction orders, double renders'
-TARGETS = []
+from . import resolver_contracts as rc
+TARGETS = [rc.M_HELP + ":HelpResolver.create_resolved_command"]
 LEMMAS = []
 try:
     from .C17_bounded import bounded, BOUNDED_RULE  # noqa: F401
